@@ -136,6 +136,13 @@ def _check(forest, alias, head=None):
             if a.id != b.id:
                 return 'first occurrence of a shared node lost its id'
         seen.add(b.id)
+    # a history of two calls: the result is a tree, re-establishing the
+    # invariant once more keeps every node
+    again = nodes.reduplicate(res)
+    for a, a2 in zip(after_nodes, _all(again)):
+        if a2 is not a:
+            return ('second call of reduplicate on an input that is already '
+                    'a tree replaced a node')
     return None
 
 
@@ -189,7 +196,11 @@ def check_ids(env, final):
 
 SITE_CONFIGS = [('ddmin', 'b', 'elim'), ('hierarchical', 'b', 'elim'),
                 ('hybrid', 'b', 'elim'), ('ddmin', 'b', 'mix'),
-                ('hierarchical', 'b', 'mix')]
+                ('hierarchical', 'b', 'mix'),
+                # replacements that re-use a node of another command (the
+                # width leaf of a declared bit-vector sort, datatype sorts)
+                ('hierarchical', 'g', 'core'), ('ddmin', 'g', 'core'),
+                ('hierarchical', 'm', 'fresh')]
 
 
 def partitions(tier):
